@@ -55,3 +55,7 @@ CLAIMS["C15"] = (
  "runtime monitors: call-history oracle (repeatability of outputs, type-accurate deep dump of arguments before/after every read-only call, patch-after-render), Go race detector as a purity sanitizer on shared values, recomputation across repetitions and fresh processes",
  "Held on every executed history (25k random sequences of 8 read-only calls, all 120 orderings of the five renderers on a 50-subject panel), on 12k concurrent goroutine-call batches under -race (0 reports), and on repeated fresh computations in-process (12x) and across processes (4x) incl. diffs read from multi-key merge patches.",
  TB + "; the race detector sees only writes that execute on generated subjects", "DESIGN.md 5.15")
+CLAIMS["C16"] = (
+ "runtime monitor with reference model: documents written as YAML by an independent emitter (four styles) and as JSON must read equal; jd's own Yaml()/Json() output read back; real-binary translations and -yaml diff/patch",
+ "Held on every executed document: a table of ~190 hostile strings as values and keys (exhaustive x 4 placements), number and integer-literal tables, 20k random hostile documents x 4 emitter styles, and CLI json2yaml|yaml2json, -yaml diff and -yaml -p runs; the key '<<' is the open known finding F16 (defect in the vendored YAML emitter).",
+ TB + " incl. the harness's own YAML emitter ref.YamlEmit", "DESIGN.md 5.16")
